@@ -666,3 +666,171 @@ Section Validate.
     reflexivity.
   Qed.
 End Validate.
+
+(* the reference picked does not depend on comments either (so the premise about it is needed for one layout only) *)
+Lemma picked_reference_sc reparse root :
+  (forall rf, find_signature root = Ok rf -> si_comment_safe (snd rf)) ->
+  picked_reference reparse (sc root) = picked_reference reparse root.
+Proof.
+  intros S1. destruct (is_elem root) eqn:HE; [|destruct root; try discriminate HE; reflexivity].
+  unfold picked_reference. pose proof (find_signature_sc root HE) as F.
+  destruct (find_signature root) as [[root' f1]|e]; [|rewrite F; reflexivity].
+  destruct F as (f2 & -> & A1 & A2 & A3 & Q). cbn [bind fst snd]. unfold picked_reference_at.
+  rewrite (canonical_signed_info_sc root' f1 f2 A2 A3 Q (S1 _ eq_refl)), id_of_sc. reflexivity.
+Qed.
+
+Theorem validation_same_modulo_comments' digest sig_ok parse_cert reparse store now root1 root2 :
+  sc root1 = sc root2 ->
+  (forall rf, find_signature root1 = Ok rf -> si_comment_safe (snd rf)) ->
+  (forall rf, find_signature root2 = Ok rf -> si_comment_safe (snd rf)) ->
+  (forall r, picked_reference reparse root1 = Ok r -> ref_comment_safe r = true) ->
+  dsig_validate canon_model digest sig_ok parse_cert reparse store now root1 =
+  dsig_validate canon_model digest sig_ok parse_cert reparse store now root2.
+Proof.
+  intros E A1 A2 B1. apply validation_same_modulo_comments; try assumption.
+  rewrite <- (picked_reference_sc reparse root2 A2), <- E, (picked_reference_sc reparse root1 A1). exact B1.
+Qed.
+
+(* ---- 1.5 non-vacuity, and where the premises are needed ---- *)
+Module LayoutEx.
+  Definition A (k v : string) : attr := {| at_space := ""; at_key := k; at_val := v |}.
+  Definition NS (p v : string) : attr := {| at_space := "xmlns"; at_key := p; at_val := v |}.
+  Definition DS (tag : string) (attrs : list attr) (kids : list node) : node := Elem "ds" tag attrs kids.
+  Definition digest20 := "01234567890123456789".
+  (* [c]: what is put wherever a comment can go *)
+  Definition reference_el (uri dv : string) (trs : list string) (c : list node) : node :=
+    DS "Reference" [A "URI" uri]
+       (c ++ [DS "Transforms" [] (map (fun a => DS "Transform" [A "Algorithm" a] []) trs);
+        DS "DigestMethod" [A "Algorithm" "http://www.w3.org/2001/04/xmlenc#sha256"] [];
+        DS "DigestValue" [] ([Text (substring 0 5 dv)] ++ c ++ [Text (substring 5 100 dv)])]).
+  Definition signed_info_el (sialg : string) (trs : list string) (c : list node) : node :=
+    DS "SignedInfo" []
+       (c ++ [DS "CanonicalizationMethod" [A "Algorithm" sialg] c;
+         DS "SignatureMethod" [A "Algorithm" "http://www.w3.org/2001/04/xmldsig-more#rsa-sha256"] [];
+         reference_el "#x" (base64_encode digest20) trs c]).
+  (* c : comments outside SignedInfo, cs : comments inside SignedInfo; SignatureValue is base64 of "sig", cut by a comment *)
+  Definition signature_el (sialg : string) (trs : list string) (c cs : list node) : node :=
+    Elem "ds" "Signature" [NS "ds" ds_ns]
+         (c ++ [signed_info_el sialg trs cs] ++ c ++ [DS "SignatureValue" [] ([Text "c2"] ++ c ++ [Text "ln"])]).
+  Definition doc (sialg : string) (trs : list string) (c cs : list node) : node :=
+    Elem "s" "Root" [A "ID" "x"; NS "s" "urn:s"]
+      (c ++ [Elem "s" "Issuer" [] ([Text "idp"] ++ c)] ++ c ++ [signature_el sialg trs c cs] ++ c ++
+       [Elem "s" "Item" [A "b" "1"; A "a" "2"] ([Text "hel"] ++ c ++ [Text "lo"]); Text "!"]).
+  Definition the_cert : cert :=
+    {| c_der := "DER"; c_not_before := {| i_sec := 100; i_nsec := 0 |}; c_not_after := {| i_sec := 200; i_nsec := 0 |} |}.
+  Definition base sialg trs := doc sialg trs [] [].
+  (* oracles: the canonicaliser is the MODEL; signature check, digest and re-parse are tables built around the bytes the
+     model computes for the comment-free document *)
+  Definition si_bytes sialg trs := match obs_si_bytes canon_model (base sialg trs) with Ok b => b | Err _ => "?" end.
+  Definition reparse0 sialg trs (b : string) : option node :=
+    if b =?s si_bytes sialg trs
+    then Some (match signed_info_el sialg trs [] with
+               | Elem sp tg attrs kids => Elem sp tg (NS "ds" ds_ns :: attrs) kids
+               | other => other end)
+    else None.
+  Definition body_bytes sialg trs :=
+    match obs_ref_bytes canon_model (reparse0 sialg trs) (base sialg trs) with Ok b => b | Err _ => "??" end.
+  Definition verified : node := Elem "" "Verified" [] [].
+  Definition reparse sialg trs (b : string) : option node :=
+    if b =?s body_bytes sialg trs then Some verified else reparse0 sialg trs b.
+  Definition digest sialg trs (alg bytes : string) : option string :=
+    if bytes =?s body_bytes sialg trs then Some digest20 else Some "00000000000000000000".
+  Definition sig_ok sialg trs (c : cert) (alg msg sg : string) : bool :=
+    (c_der c =?s "DER") && (msg =?s si_bytes sialg trs) && (sg =?s "sig").
+  Definition parse_cert (der : string) : option cert := None.
+  Definition run sialg trs (root : node) :=
+    dsig_validate canon_model (digest sialg trs) (sig_ok sialg trs) parse_cert (reparse sialg trs) [the_cert]
+                  {| i_sec := 150; i_nsec := 0 |} root.
+  Definition C := [Comment "x"].
+  Definition usual := [alg_enveloped; alg_exc].
+
+  (* exc-c14n for SignedInfo and reference: comments EVERYWHERE (before the Signature: its path moves from [1] to [3];
+     inside SignedInfo, DigestValue, SignatureValue): premises hold, accepted on both sides *)
+  Example comments_everywhere :
+    let root := doc alg_exc usual C C in
+    sc root = base alg_exc usual /\ root <> base alg_exc usual /\
+    (exists r f, find_signature root = Ok (r, f) /\ fs_path f = [3%nat]) /\
+    (exists r f, find_signature (sc root) = Ok (r, f) /\ fs_path f = [1%nat]) /\
+    (forall rf, find_signature root = Ok rf -> si_comment_safe (snd rf)) /\
+    (forall r, picked_reference (reparse alg_exc usual) root = Ok r -> ref_comment_safe r = true) /\
+    run alg_exc usual root = DOk verified /\ run alg_exc usual (sc root) = DOk verified.
+  Proof.
+    cbv zeta. split; [vm_compute; reflexivity|]. split; [intros H; discriminate H|].
+    split; [eexists; eexists; vm_compute; split; reflexivity|]. split; [eexists; eexists; vm_compute; split; reflexivity|].
+    split; [intros rf H; vm_compute in H; injection H as <-; left; reflexivity|].
+    split; [intros r H; vm_compute in H; injection H as <-; vm_compute; reflexivity|].
+    split; vm_compute; reflexivity.
+  Qed.
+
+  (* SignedInfo canonicalised WITH comments: comments may go anywhere outside SignedInfo *)
+  Example comments_outside_signed_info :
+    let root := doc alg_exc_wc usual C [] in
+    (forall rf, find_signature root = Ok rf -> si_comment_safe (snd rf)) /\
+    (forall r, picked_reference (reparse alg_exc_wc usual) root = Ok r -> ref_comment_safe r = true) /\
+    run alg_exc_wc usual root = DOk verified /\ run alg_exc_wc usual (sc root) = DOk verified.
+  Proof.
+    cbv zeta. split; [intros rf H; vm_compute in H; injection H as <-; right; vm_compute; reflexivity|].
+    split; [intros r H; vm_compute in H; injection H as <-; vm_compute; reflexivity|].
+    split; vm_compute; reflexivity.
+  Qed.
+End LayoutEx.
+
+(* WITHOUT the premises the statement is false of the model (and of goxmldsig: by design for the with-comments
+   algorithms; the third is a curiosity of removeElementAtPath) *)
+Theorem validation_comments_matter_without_premises :
+  (* a comment inside a SignedInfo canonicalised with comments *)
+  (exists root, LayoutEx.run alg_exc_wc LayoutEx.usual (sc root) = DOk LayoutEx.verified /\
+                LayoutEx.run alg_exc_wc LayoutEx.usual root = DErr) /\
+  (* a comment in an element digested under a with-comments transform, or under no canonicalisation transform at all
+     (the null canonicaliser keeps comments) *)
+  (exists root, LayoutEx.run alg_exc [alg_enveloped; alg_exc_wc] (sc root) = DOk LayoutEx.verified /\
+                LayoutEx.run alg_exc [alg_enveloped; alg_exc_wc] root = DErr) /\
+  (exists root, LayoutEx.run alg_exc [alg_enveloped] (sc root) = DOk LayoutEx.verified /\
+                LayoutEx.run alg_exc [alg_enveloped] root = DErr) /\
+  (* enveloped-signature listed TWICE: the second removal takes whatever token now stands at the signature's index -- the
+     next element in the comment-free document (which is then not digested), a comment otherwise (an error) *)
+  (exists root, LayoutEx.run alg_exc [alg_enveloped; alg_enveloped; alg_exc] (sc root) = DOk LayoutEx.verified /\
+                LayoutEx.run alg_exc [alg_enveloped; alg_enveloped; alg_exc] root = DErr /\
+                keeps_comments (CExc "" false) = false).
+Proof.
+  split; [exists (LayoutEx.doc alg_exc_wc LayoutEx.usual [] LayoutEx.C); split; vm_compute; reflexivity|].
+  split; [exists (LayoutEx.doc alg_exc [alg_enveloped; alg_exc_wc] LayoutEx.C []); split; vm_compute; reflexivity|].
+  split; [exists (LayoutEx.doc alg_exc [alg_enveloped] LayoutEx.C []); split; vm_compute; reflexivity|].
+  exists (LayoutEx.doc alg_exc [alg_enveloped; alg_enveloped; alg_exc] LayoutEx.C []). repeat split; vm_compute; reflexivity.
+Qed.
+
+(* ================================================================ 3. lift to the SAML layer (Response.v over dsig := Dsig.v over canon_model) *)
+Section Saml.
+  Variable digest : string -> string -> option string.
+  Variable sig_ok : cert -> string -> string -> string -> bool.
+  Variable parse_cert : string -> option cert.
+  Variable reparse : string -> option node.
+  Variable decrypt : node -> res node.
+  Variable store : list cert.
+
+  Notation dsig now := (dsig_validate canon_model digest sig_ok parse_cert reparse store now).
+
+  Lemma unmarshal_response_sc root : Decode.unmarshal_response (sc root) = Decode.unmarshal_response root.
+  Proof. unfold Decode.unmarshal_response. rewrite unmarshal_element_sc. reflexivity. Qed.
+
+  (* A Response whose own signature is found (accepted or fatally rejected), or any Response when signature checking is
+     switched off: ValidateEncodedResponse returns the same Response / the same error for the two comment layouts, and so
+     does RetrieveAssertionInfo.  NOT covered: the unsigned-Response path (dsig root = DMissing: every assertion validated
+     separately) -- it needs the same simulation for Ns.traverse (indices of the direct children shift) and, when
+     assertions are encrypted, a premise on the decryption oracle. *)
+  Theorem response_ignores_comments cfg now root :
+    (forall rf, find_signature root = Ok rf -> si_comment_safe (snd rf)) ->
+    (forall r, picked_reference reparse root = Ok r -> ref_comment_safe r = true) ->
+    cfg_skip_sig cfg = true \/ dsig now root <> DMissing ->
+    validate_response_tree (dsig now) decrypt cfg now (sc root) = validate_response_tree (dsig now) decrypt cfg now root /\
+    retrieve_assertion_info_tree (dsig now) decrypt cfg now (sc root) = retrieve_assertion_info_tree (dsig now) decrypt cfg now root.
+  Proof.
+    intros S1 S2 H.
+    assert (E : validate_response_tree (dsig now) decrypt cfg now (sc root) = validate_response_tree (dsig now) decrypt cfg now root).
+    { unfold validate_response_tree. destruct (cfg_skip_sig cfg).
+      - rewrite unmarshal_response_sc. reflexivity.
+      - rewrite (validation_ignores_comments digest sig_ok parse_cert reparse store now root S1 S2).
+        destruct (dsig now root); try reflexivity. destruct H as [H|H]; [discriminate H | congruence]. }
+    split; [exact E|]. unfold retrieve_assertion_info_tree. rewrite E. reflexivity.
+  Qed.
+End Saml.
